@@ -126,12 +126,15 @@ class Lib:
                      "map", "print", "dict", "set", "round", "id", "filter", "divmod", "format", "frozenset",
                      "slice"):
             T[getattr(builtins, name)] = getattr(self, "b_" + name)
+        T[builtins.exec] = self.b_exec
         T[datetime.date] = self.c_date
         T[datetime.date.fromordinal] = self.c_fromordinal
         T[calendar.monthrange] = self.c_monthrange
         T[copy.deepcopy] = self.c_deepcopy
         T[copy.copy] = self.c_copy
-        T[functools.wraps] = lambda I, a, k, n: (lambda I2, a2, k2, n2: a2[0])
+        T[functools.wraps] = lambda I, a, k, n: LibFn(lambda I2, a2, k2, n2: a2[0], "functools.wraps(...)")
+        T[functools.partial] = lambda I, a, k, n: LibFn(
+            lambda I2, a2, k2, n2, f=a[0], pa=list(a[1:]), pk=dict(k): I2.call(f, pa + list(a2), {**pk, **k2}, n2), "functools.partial")
         T[itertools.product] = self.c_product
         T[itertools.chain] = lambda I, a, k, n: tuple_iter([x for it in a for x in I.iterate(it, n)])
         T[itertools.chain.from_iterable] = lambda I, a, k, n: tuple_iter([x for it in I.iterate(a[0], n) for x in I.iterate(it, n)])
@@ -208,6 +211,10 @@ class Lib:
                 fn = self.method_table[obj.kind][name]
                 return LibFn(lambda I2, a, k, n: fn(I2, obj, a, k, n), f"{obj.kind}.{name}")
             return _MISSING
+        if isinstance(obj, (SV, bool)) and name in ("all", "any", "item", "tolist", "copy", "flatten", "squeeze"):
+            # numpy scalar protocol (values produced by numpy operations are numpy scalars)
+            I.ctx.note_assumption("scalars produced by numpy operations are numpy scalars (.all/.any/.item/.tolist available)")
+            return LibFn(lambda I2, a, k, n: obj, f"numpy_scalar.{name}")
         if isinstance(obj, SV):
             if obj.is_int or obj.is_real:
                 if name == "real":
@@ -502,6 +509,18 @@ class Lib:
             selfobj = getattr(fn, "__self__", None)
             if isinstance(fn, functools.partial):
                 return I.call(fn.func, list(fn.args) + list(args), {**fn.keywords, **kwargs}, node)
+            if not S.is_repo_function(fn) and not (deep_concrete(args) and deep_concrete(kwargs)):
+                # interpreter callables passed as callbacks to a library function (re.sub, sorted key, ...):
+                # wrap them as python callables that re-enter the interpreter; everything else must be concrete
+                def nat(v):
+                    if isinstance(v, (Func, Bound, LibFn)):
+                        return lambda *aa, **kk: I.call(v, list(aa), kk, node)
+                    return v
+                a2 = [nat(x) for x in args]
+                k2 = {kk: nat(x) for kk, x in kwargs.items()}
+                if any(x is not y for x, y in zip(a2, args)) or any(k2[kk] is not kwargs[kk] for kk in kwargs):
+                    if deep_concrete([x for x in a2 if not callable(x)]) and deep_concrete({kk: x for kk, x in k2.items() if not callable(x)}):
+                        args, kwargs = a2, k2
             if deep_concrete(args) and deep_concrete(kwargs) and not S.is_repo_function(fn):
                 I.ctx.note_assumption(A_NATIVE + getattr(fn, "__qualname__", repr(fn)))
                 try:
@@ -566,6 +585,26 @@ class Lib:
         return _MISSING
 
     # ------------------------------------------------------------------ builtins
+    def b_exec(self, I, a, k, n):
+        """exec(source, globals[, locals]) on concrete text: executed by CPython; every function it defines is
+        registered with its source text so that the engine analyses it from that text (bytecode-checked)."""
+        src = a[0]
+        if not isinstance(src, str) or len(a) < 2 or not isinstance(a[1], dict):
+            raise Unsupported("exec() with symbolic source or without explicit globals")
+        g = a[1]
+        loc = a[2] if len(a) > 2 else g
+        before = {id(v) for v in list(g.values()) + list(loc.values())}
+        I.ctx.note_assumption("exec() of generated source text is performed by CPython; the generated functions are analysed from that text")
+        exec(src, g, loc)
+        for d in (g, loc):
+            for name, v in list(d.items()):
+                if isinstance(v, types.FunctionType) and v.__code__.co_filename == "<string>" and id(v) not in before:
+                    try:
+                        S.register_generated(v, src, f"exec@{I.loc(n)}")
+                    except LookupError:
+                        pass
+        return None
+
     def b_int(self, I, a, k, n):
         if not a:
             return 0
